@@ -8,6 +8,7 @@ import (
 	"path/filepath"
 	"sort"
 	"strings"
+	"time"
 
 	rt "github.com/arnodel/golua/runtime"
 
@@ -187,6 +188,90 @@ func (s *sentinel) restore() {
 	os.RemoveAll(s.dir)
 }
 
+// sysTracer reads the worker's own strace output (the supervisor starts the worker under strace for
+// the "trace" batch): what a call did at the operating-system boundary, also when nothing comes back
+// to Lua and nothing changes on disk (a silent read, a connection attempt, a process started).
+type sysTracer struct {
+	f   *os.File
+	seq int
+	buf []byte
+}
+
+func openTracer() *sysTracer {
+	name := os.Getenv("VSIM_TRACE_FILE")
+	if name == "" {
+		return nil
+	}
+	f, err := os.Open(name)
+	if err != nil {
+		return nil
+	}
+	f.Seek(0, 2)
+	return &sysTracer{f: f}
+}
+
+func (t *sysTracer) close() { t.f.Close() }
+
+func (t *sysTracer) marker(kind string) string {
+	m := fmt.Sprintf("/vsim-marker/%s%d-%d", kind, os.Getpid(), t.seq)
+	os.Stat(m) // fails with ENOENT; the tracer logs it
+	return m
+}
+
+func (t *sysTracer) begin() { t.seq++; t.buf = t.buf[:0]; t.marker("b") }
+
+// end returns the system calls logged between the two markers (nil if the trace cannot be read).
+func (t *sysTracer) end() []string {
+	b := fmt.Sprintf("/vsim-marker/b%d-%d", os.Getpid(), t.seq)
+	e := t.marker("e")
+	tmp := make([]byte, 1<<16)
+	for try := 0; try < 200; try++ {
+		for {
+			n, _ := t.f.Read(tmp)
+			if n <= 0 {
+				break
+			}
+			t.buf = append(t.buf, tmp[:n]...)
+		}
+		if strings.Contains(string(t.buf), e) {
+			break
+		}
+		time.Sleep(time.Millisecond)
+	}
+	text := string(t.buf)
+	i, j := strings.Index(text, b), strings.Index(text, e)
+	if i < 0 || j < 0 || j < i {
+		return nil
+	}
+	lines := strings.Split(text[i:j], "\n")
+	if len(lines) < 2 {
+		return []string{}
+	}
+	return lines[1 : len(lines)-1]
+}
+
+// classify tells what a traced call did that an iosafe context must not do ("" if nothing).
+func classifyTraced(lines []string, sentinelDir string) (string, string) {
+	for _, l := range lines {
+		if strings.Contains(l, " unlink") && strings.Contains(l, sentinelDir+"/tmp/golua") {
+			// a temporary file of an earlier, legitimate io.tmpfile call being removed now that its
+			// userdata is released: asynchronous clean-up, not an effect of the call in the window
+			continue
+		}
+		switch {
+		case strings.Contains(l, sentinelDir):
+			return "file-access", l
+		case strings.Contains(l, " socket(") || strings.Contains(l, " connect(") || strings.Contains(l, " bind(") || strings.Contains(l, " sendto(") || strings.Contains(l, " listen("):
+			return "network", l
+		case strings.Contains(l, " execve(") || strings.Contains(l, " fork(") || strings.Contains(l, " vfork("):
+			return "process", l
+		case (strings.Contains(l, " clone(") || strings.Contains(l, " clone3(")) && !strings.Contains(l, "CLONE_THREAD") && !strings.Contains(l, "resumed"):
+			return "process", l
+		}
+	}
+	return "", ""
+}
+
 func flagSet(bits int) rt.ComplianceFlags {
 	all := []rt.ComplianceFlags{rt.ComplyCpuSafe, rt.ComplyMemSafe, rt.ComplyTimeSafe, rt.ComplyIoSafe}
 	var f rt.ComplianceFlags
@@ -211,6 +296,14 @@ func runFlags(ctx *core.RunCtx) {
 		s.End()
 		s.Release()
 	}()
+	var tracer *sysTracer
+	if ctx.Mode == "trace" {
+		if tracer = openTracer(); tracer == nil {
+			ctx.Fail("C08", "HARNESS", "no-tracer", "the trace batch needs the worker to run under strace (VSIM_TRACE_FILE unset or unreadable)")
+			return
+		}
+		defer tracer.close()
+	}
 	fns := collectGoFunctions(h)
 	if len(fns) < 100 {
 		ctx.Fail("C08", "C08.H", "harness", "only %d Go functions discovered", len(fns))
@@ -377,9 +470,30 @@ func runFlags(ctx *core.RunCtx) {
 		for rep := 0; rep < 2; rep++ {
 			args, adesc := mkArgs(rep == 0 && g.Chance(2, 3))
 			spelling := g.Choose(4)
+			traced := tracer != nil && (bits&^declared != 0 || bits&8 != 0)
+			if traced {
+				tracer.begin()
+			}
 			errS, results, live, pan := call(flags, spelling, args)
 			grid++
 			where := fmt.Sprintf("%s(%s) spelling=%d required=%v declared=%v", fn.path, adesc, spelling, flags.Names(), flagSet(declared).Names())
+			if traced {
+				lines := tracer.end()
+				if lines == nil {
+					ctx.Count("probe.trace window unreadable", 1)
+				} else {
+					ctx.Count("traced call windows", 1)
+					ctx.Count("system calls seen inside traced windows", int64(len(lines)))
+					if kind, line := classifyTraced(lines, sen.dir); kind != "" {
+						what := "in a context requiring iosafe"
+						if bits&^declared != 0 {
+							what = "although the call had to be refused"
+						}
+						ctx.Fail("C08", "C08.G3", "traced-"+kind+":"+fn.path, "the call reached the operating system %s: %s; %s", what, strings.TrimSpace(line), where)
+						return
+					}
+				}
+			}
 			if pan != nil {
 				if _, ok := pan.(rt.ContextTerminationError); !ok {
 					ctx.Fail("C08", "C08.P", "panic", "Go panic: %v; %s", pan, where)
